@@ -66,6 +66,7 @@ func ruleC04(w *World, r *Report) {
 		"R04.4 clearTables lists every table a builder writes, clearDatapathState re-initialises the interfaces after the clear on every non-error path, both interface entries go out in one write, start-up takes the clearing branch."
 	r.Explanation += " R04.9 IsAppFilterEmpty, interpreted for all valuations of its atoms, equals proto==0 ∧ (remote end of the PDR's direction all-wildcard). R04.2 (cont.) the status filter is interpreted for every status × method combination: OK / ALREADY_EXISTS pass, NOT_FOUND passes on DELETE only, everything else rejects; R04.11 a delete issued for Remove PDR hands the plug-in the session's remaining rules (the sessions entry is shared by the PDRs of a direction)."
 	r.Explanation += " R04.12 the application ID of a terminations entry is decided within the PDR's own iteration and is the ID add/removeInternalApplicationID returned; R04.13 = C15 R15.5 (a reconnect does not clear a switch that holds live sessions)."
+	r.Explanation += " R04.14 resetMeter leaves the downlink cell out only when it is the uplink cell; R04.15 ApplyTableEntries sends the entries of a call as one batch."
 	r.NotDecided = "reference-count arithmetic over histories ('present iff at least one live rule uses it'); what the switch does"
 	info := loadP4Info(w.Repo, P)
 	closed := w.ConstInt(P, iePkg, "GateStatusClosed")
